@@ -15,10 +15,46 @@ open Haiway.Wrap
 
 /-! ## transparent: same result, same exception, for the same arguments -/
 
-/-- C18.transparent (asynchronous): the awaited call returns / raises exactly what the function does for the same
-arguments in (a copy of) the caller's context. -/
-theorem transparent_asynchronous (f : Fn) (a : Nat) (c : Ctx) (w : World) :
-    (callAsynchronous f a c w).1 = (f.run a c w).1 := rfl
+/-- the full transparency statement for `asynchronous` -/
+def transparent_asynchronous_statement : Prop :=
+  ∀ (f : Fn) (a : Nat) (c : Ctx) (w : World), (callAsynchronous f a c w).1 = (f.run a c w).1
+
+/-- the exception classes the loop re-creates on the way from the executor's future to the awaiting task -/
+def Converted (e : Exc) : Prop := e.cls = cfCancelled ∨ e.cls = timeoutError ∨ e.cls = cfInvalidState
+
+/-- C18.transparent (asynchronous), partial: the awaited call returns exactly the value the function returns, and
+raises exactly the exception object the function raises, for the same arguments in (a copy of) the caller's context
+– for every result and every exception except the three classes of `Converted`. -/
+theorem transparent_asynchronous_partial (f : Fn) (a : Nat) (c : Ctx) (w : World)
+    (h : ∀ e, (f.run a c w).1 = .raise e → ¬ Converted e) :
+    (callAsynchronous f a c w).1 = (f.run a c w).1 := by
+  simp only [callAsynchronous]
+  cases hr : (f.run a c w).1 with
+  | ret v => rfl
+  | raise e =>
+    have := h e hr
+    simp only [Converted, not_or] at this
+    simp [convertOutcome, convertFutureExc, this.1, this.2.1, this.2.2]
+
+/-- what happens to the three classes: same arguments, but a new object – and for two of them another class. -/
+theorem asynchronous_converts (f : Fn) (a : Nat) (c : Ctx) (w : World) (e : Exc) (hr : (f.run a c w).1 = .raise e) :
+    (callAsynchronous f a c w).1 = .raise (convertFutureExc e) := by
+  simp [callAsynchronous, hr, convertOutcome]
+
+/-- the full statement is false: a function raising `concurrent.futures.CancelledError` (object 7) – the caller
+gets a fresh `asyncio.CancelledError`; a function raising `TimeoutError` – the caller gets another `TimeoutError`
+object. -/
+theorem transparent_asynchronous_refuted : ¬ transparent_asynchronous_statement := by
+  intro h
+  have := h { id := 0, name := 0, doc := none, run := unbound (.raise { cls := cfCancelled, obj := 7 }) } 0 {} {}
+  revert this
+  decide
+
+theorem transparent_asynchronous_refuted_timeout : ¬ transparent_asynchronous_statement := by
+  intro h
+  have := h { id := 0, name := 0, doc := none, run := unbound (.raise { cls := timeoutError, obj := 7 }) } 0 {} {}
+  revert this
+  decide
 
 /-- C18.transparent (wrap_async) -/
 theorem transparent_wrap_async (f : Fn) (a : Nat) (c : Ctx) (w : World) :
@@ -43,7 +79,7 @@ theorem transparent_traced_scope_independent (f : Fn) (a : Nat) (c : Ctx) (w : W
 
 /-- C18.context_in (asynchronous / wrap_async): the function runs on exactly the caller's context value. -/
 theorem context_in_asynchronous (f : Fn) (a : Nat) (c : Ctx) (w : World) :
-    callAsynchronous f a c w = ((f.run a c w).1, c, (f.run a c w).2.2) := rfl
+    callAsynchronous f a c w = (convertOutcome (f.run a c w).1, c, (f.run a c w).2.2) := rfl
 
 theorem context_in_wrap_async (f : Fn) (a : Nat) (c : Ctx) (w : World) :
     callWrapAsync f a c w = f.run a c w := rfl
@@ -114,10 +150,10 @@ theorem metadata_all (f : Fn) :
 
 /-- a function that raises, leaks a state block and records a metric, called through `asynchronous` inside a scope -/
 example :
-    let f : Fn := { id := 7, name := 98, doc := some 1, run := scripted (.raise 3) 9 4 }
+    let f : Fn := { id := 7, name := 98, doc := some 1, run := scripted (.raise { cls := 1, obj := 3 }) 9 4 }
     let cw := enterSite [(0, 1), (1, 5)] 0 { state := some 0, scope := some 0 } { nodes := [{ name := 99, parent := none }] }
     let r := callAsynchronous f 0 cw.1 cw.2
-    r.1 = .raise 3 ∧ r.2.1 = { state := some 5, scope := some 1 } ∧
+    r.1 = .raise { cls := 1, obj := 3 } ∧ r.2.1 = { state := some 5, scope := some 1 } ∧
     r.2.2.seen = [{ state := some 5, scope := some 1 }] ∧
     (r.2.2.nodes[1]?).map (·.recs) = some [.metric 4] := by decide
 
